@@ -626,7 +626,10 @@ class ArgumentParser(ParserDeprecations, ActionsContainer, ArgumentLinking, argp
         except TypeError as ex:
             self.error(str(ex), ex)
         with change_to_path_dir(fpath):
-            cfg_str = fpath.get_content()
+            try:
+                cfg_str = fpath.get_content()
+            except (OSError, UnicodeError) as ex:
+                self.error(f"Unable to read {cfg_path}: {ex}", ex)
             parsed_cfg = self.parse_string(
                 cfg_str,
                 os.path.basename(cfg_path),
